@@ -452,13 +452,13 @@ fn run_damage(plan: &Value, rec: &mut Rec) {
         match read(Arc::new(damaged.clone())) {
             Err(p) => rec.violation("panic", &norm_loc(&p.loc), format!("reading a damaged container panicked ({}): {}", m, p.msg), vplan.clone()),
             Ok(o) => {
-                // observation only: what a caller gets who reads on after the error
+                // a caller who reads on after the error (the decryptors keep a failure state for this)
                 if let Some((n, clean)) = o.after_error {
                     if n > 0 {
                         rec.count("probe:message-reader-hands-out-octets-after-its-error");
                     }
                     if clean {
-                        rec.count("probe:message-reader-clean-end-after-its-error");
+                        rec.violation("clean-end-on-damaged-ciphertext", &format!("{site} [reading on after the error]"), format!("mutation {m}: the read failed ({:?}), the caller read on and reached a clean end of stream after {n} more octets", o.end), vplan.clone());
                     }
                 }
                 if o.end.is_ok() {
@@ -467,6 +467,26 @@ fn run_damage(plan: &Value, rec: &mut Rec) {
                     rec.violation("plaintext-released-before-mdc-check", &site, format!("mutation {m}: default SEIPDv1 mode released {} plaintext bytes before failing", o.data.len()), vplan.clone());
                 } else if v2 && !payload.starts_with(&o.data) && jstr(cfg, "compression") == "none" {
                     rec.violation("released-bytes-not-a-prefix", &site, format!("mutation {m}: {} released bytes are not a prefix of the true plaintext", o.data.len()), vplan.clone());
+                }
+            }
+        }
+        // SEIPDv1 in streaming mode through crypto::sym::StreamDecryptor itself (it has its own read_to_end)
+        if !v2 && lowlevel {
+            if let (Ok(dp), Some(PlainSessionKey::V3_4 { sym_alg, key })) = (deframe(&damaged), &sk) {
+                if let Some(dpk) = dp.last().filter(|p| p.tag == 18 && p.body.first() == Some(&1)) {
+                    rec.eval(h.0 ^ 0x22, true);
+                    let body = dpk.body.clone();
+                    let r = guard(|| -> Option<(usize, bool)> {
+                        let src = std::io::BufReader::with_capacity(512, &body[1..]);
+                        let mut d = sym_alg.stream_decryptor_protected(Seipdv1ReadMode::Streaming, key.as_ref(), src).ok()?;
+                        let (data, end) = seams::drain_read(&mut d, &consumer, body.len() + 64);
+                        Some((data.len(), end.is_ok()))
+                    });
+                    match r {
+                        Err(p) => rec.violation("panic", &norm_loc(&p.loc), format!("crypto::sym::StreamDecryptor (streaming) panicked ({}): {}", m, p.msg), vplan.clone()),
+                        Ok(Some((n, true))) => rec.violation("clean-end-on-damaged-ciphertext", &format!("sym::StreamDecryptor:streaming:{kind}"), format!("mutation {m}: the streaming decryptor, read with {}, ended cleanly after {n} octets", consumer.label()), vplan.clone()),
+                        Ok(_) => {}
+                    }
                 }
             }
         }
@@ -486,7 +506,7 @@ fn run_damage(plan: &Value, rec: &mut Rec) {
                                     rec.count(if v2 { "probe:raw-v2-decryptor-hands-out-octets-after-its-error" } else { "probe:raw-v1-decryptor-hands-out-octets-after-its-error" });
                                 }
                                 if clean {
-                                    rec.count(if v2 { "probe:raw-v2-decryptor-clean-end-after-its-error" } else { "probe:raw-v1-decryptor-clean-end-after-its-error" });
+                                    rec.violation("clean-end-on-damaged-ciphertext", &format!("{site} [reading on after the error]"), format!("mutation {m}: the raw decryptor failed, the caller read on and reached a clean end of stream after {n} more octets"), vplan.clone());
                                 }
                             }
                             if end.is_ok() {
